@@ -82,7 +82,7 @@ def traceShape (c : Ctx) (m : ModRt) (kind : Kind) (woken : Sleepers) : List Ite
   let acts := m.elems.map (·.spec.act)
   (List.range m.elems.length).flatMap (upItemsAt c m.elems kind.msg?)
     ++ handlerItems c m kind (msgAt acts kind.msg? m.elems.length)
-    ++ woken.map (fun s => s.2.toItem c)
+    ++ wokenItems c woken
     ++ (List.range m.elems.length).reverse.flatMap (endItemsAt c m.elems)
 
 /-- the tasks that are due at `c.now` -/
